@@ -82,8 +82,33 @@ class NumEnv:
     def sos(self, *terms):
         pass
 
+    def sympy_call(self, src, names):
+        """numeric mode: run the real code with SymPy symbols, substitute this point's numbers"""
+        import sympy
+        from .sympy_side import run as _srun
+        r = _srun(src, names)
+        if r['status'] != 'ok':
+            return SymResult(raised=r.get('exc'), msg=r.get('msg'))
+        subs = {sympy.Symbol(n, real=True): self._get(n) for n in names}
+        vals, floats = [], []
+        for i, v in enumerate(r['values']):
+            if 'srepr' in v:
+                e = sympy.sympify(v['srepr'])
+                floats.append(bool(e.atoms(sympy.Float)))
+                vals.append(float(e.subs(subs).evalf(30)))
+            elif 'int' in v:
+                vals.append(float(v['int'])); floats.append(False)
+            elif 'float' in v:
+                vals.append(v['float']); floats.append(v['float'] not in (0.0, 1.0))
+            else:
+                vals.append(float('nan')); floats.append(True)
+        return SymResult(values=vals, float_flags=floats, sig=r['sig'])
+
     def D(self, x, th):
         raise OutOfDomain('formal derivative is symbolic-only')
+
+
+from .numeric_types import SymResult
 
 
 class NumChecker:
@@ -218,6 +243,11 @@ class NumChecker:
     def hint(self, name, cond):
         pass
 
+    def stub(self, holder, name, fn):
+        """numeric mode: the real callee runs (no stubbing)"""
+        import contextlib
+        return contextlib.nullcontext()
+
     def note(self, *a):
         pass
 
@@ -296,7 +326,11 @@ def serve():
             continue
         req = json.loads(line)
         try:
-            res = run_contract(req['contract'], req['cfg'], req['values'])
+            if 'sympy' in req:
+                from .sympy_side import run as _srun
+                res = _srun(req['sympy'], req['names'], req.get('numbers'))
+            else:
+                res = run_contract(req['contract'], req['cfg'], req['values'])
         except Exception:
             res = {'status': 'server-error', 'detail': traceback.format_exc()[-1500:], 'failed': {}, 'calls': []}
         real_out.write(json.dumps(res, default=str) + '\n')
